@@ -1,14 +1,13 @@
-(** C06 — proofs, part 6: [definitions_are_mapped] for schema.d.ts and (without the model plugin) for
-    resolvers.d.ts.
+(** C06 — proofs, part 6: [definitions_are_mapped] for schema.d.ts and for resolvers.d.ts (with any
+    number of model-plugin instances).
 
     The op lists of the schema declaration printer are modelled in [C10/Model.v] ([print_schema]) and
     tied to the real printer by C10's recording-writer correspondence; [C10/SitesForC06.v] (builder-C10)
     shows which [write_for]s every successful [print_schema] contains.  Feeding the op list to the
     [SourceWriter] model turns each of them into a decoded named segment ([mapped_in]).  For the
-    resolver declaration printer ([print_resolvers], same model file) the site lemma is proved here,
-    for [plugins = 0]. *)
+    resolver declaration printer ([print_resolvers], same model file) the site lemmas are proved here. *)
 From V Require Import Base.Util Gen.C06_tables_gen C06.Model C06.Spec C06.Proofs C06.ProofsMap C06.ProofsWriter.
-From V Require Gql.Ast Writer.Wop Ts.TsType C10.Model C10.Proofs C10.SitesForC06.
+From V Require Gql.Ast Writer.Wop Ts.TsType Ts.TsDen C10.Model C10.Proofs C10.ResolverProofs C10.SitesForC06.
 Local Open Scope N_scope.
 
 Module A := Gql.Ast.
@@ -60,31 +59,106 @@ Proof.
     eapply mapped_of_write_for10; [exact H | exact (SS.input_field_mapped o doc ops Hp d p n dirs fields kw iv Hin Hiv Hraw) | exact Hb].
 Qed.
 
-(** ** resolvers.d.ts, no model plugin: every non-input type definition is declared by
-       [type <Name> = …] with a [write_for] on the definition's name *)
-Lemma resolver_alias_site : forall o doc ops td,
-  S.print_resolvers o 0 doc = S.Ok ops -> In td (S.typedefs doc) -> S.is_input_def td = false ->
-  In (WO.WF (S.tname td) (A.ipos (A.typedef_name td)) (Some (S.tname td))) ops.
+(** ** resolvers.d.ts, with any number of model-plugin instances.  The printer works on the
+       plugin-transformed document [resolver_doc n doc] (C10/ResolverProofs.v): objects without
+       [@model] lose their [@model] fields, nothing else changes — in particular every definition keeps
+       its name identifier. *)
+Module RP := C10.ResolverProofs.
+
+Lemma model_td_name td : A.typedef_name (RP.model_td td) = A.typedef_name td.
+Proof. destruct td; try reflexivity. cbn. destruct (S.has_model dirs); reflexivity. Qed.
+Lemma model_td_input td : S.is_input_def (RP.model_td td) = S.is_input_def td.
+Proof. destruct td; try reflexivity. cbn. destruct (S.has_model dirs); reflexivity. Qed.
+
+Lemma in_resolver_doc : forall n doc td, In td (S.typedefs doc) ->
+  exists td', In td' (S.typedefs (RP.resolver_doc n doc)) /\ A.typedef_name td' = A.typedef_name td /\
+              S.is_input_def td' = S.is_input_def td.
 Proof.
-  intros o doc ops td H Hin Hk. unfold S.print_resolvers in H.
-  apply C10.Proofs.bind_ok in H as (d & Hd & H). injection H as <-.
-  unfold S.resolver_structure in Hd. cbn [nat_rect] in Hd. cbn [S.bind] in Hd.
-  apply C10.Proofs.bind_ok in Hd as (aliases & Ha & Hd). injection Hd as <-.
-  apply C10.Proofs.mapM_ok in Ha.
-  assert (Hf : In td (filter (fun t => negb (S.is_input_def t)) (S.typedefs doc))) by (apply filter_In; split; [exact Hin | now rewrite Hk]).
-  destruct (C10.Proofs.Forall2_in_l _ _ _ _ Ha Hf) as (y & Hy & Hr). cbv beta in Hr.
-  destruct (Ts.TsDen.assoc (S.tname td) _) as [ty|]; [|discriminate]. injection Hr as <-.
-  unfold S.print_resolver_decls. cbn [S.rd_aliases].
-  apply in_or_app. right. apply in_or_app. left. apply in_flat_map. eexists. split; [exact Hy|].
-  cbn [fst snd]. right. left. reflexivity.
+  induction n as [|n IH]; intros doc td Hin; [exists td; repeat split; exact Hin|].
+  destruct (IH doc td Hin) as (t1 & H1 & H2 & H3).
+  exists (RP.model_td t1). cbn [RP.resolver_doc nat_rect]. fold (RP.resolver_doc n doc).
+  rewrite RP.typedefs_model. split; [apply in_map; exact H1|].
+  rewrite model_td_name, model_td_input. split; assumption.
 Qed.
 
-Lemma resolver_definitions_are_mapped_lemma : forall fmap o doc ops st,
-  S.print_resolvers o 0 doc = S.Ok ops ->
-  sw_run fmap (map conv_wop10 ops) = Some st ->
-  forall td, In td (S.typedefs doc) -> S.is_input_def td = false -> A.pbuiltin (A.ipos (A.typedef_name td)) = false ->
-    mapped_in fmap st (S.tname td) (conv_pos10 (A.ipos (A.typedef_name td))) (S.tname td).
+(** every non-input type definition is declared by [type <Name> = …] with a [write_for] on its name *)
+Lemma resolver_alias_site : forall o n doc ops td,
+  S.print_resolvers o n doc = S.Ok ops -> In td (S.typedefs doc) -> S.is_input_def td = false ->
+  In (WO.WF (S.tname td) (A.ipos (A.typedef_name td)) (Some (S.tname td))) ops.
 Proof.
-  intros fmap o doc ops st Hp H td Hin Hk Hb.
-  eapply mapped_of_write_for10; [exact H | exact (resolver_alias_site o doc ops td Hp Hin Hk) | exact Hb].
+  intros o n doc ops td H Hin Hk. unfold S.print_resolvers in H.
+  apply C10.Proofs.bind_ok in H as (d & Hd & H). injection H as <-.
+  unfold S.resolver_structure in Hd.
+  apply C10.Proofs.bind_ok in Hd as (tm & _ & Hd).
+  apply C10.Proofs.bind_ok in Hd as (aliases & Ha & Hd). injection Hd as <-.
+  fold (RP.resolver_doc n doc) in Ha.
+  apply C10.Proofs.mapM_ok in Ha.
+  destruct (in_resolver_doc n doc td Hin) as (td' & Hin' & Hname & Hinp).
+  assert (Hf : In td' (filter (fun t => negb (S.is_input_def t)) (S.typedefs (RP.resolver_doc n doc))))
+    by (apply filter_In; split; [exact Hin' | now rewrite Hinp, Hk]).
+  destruct (C10.Proofs.Forall2_in_l _ _ _ _ Ha Hf) as (y & Hy & Hr). cbv beta in Hr.
+  destruct (Ts.TsDen.assoc (S.tname td') tm) as [ty|]; [|discriminate]. injection Hr as <-.
+  unfold S.print_resolver_decls. cbn [S.rd_aliases].
+  apply in_or_app. right. apply in_or_app. left. apply in_flat_map. eexists. split; [exact Hy|].
+  cbn [fst snd]. right. left. unfold S.id_wf, S.tname. rewrite Hname. reflexivity.
+Qed.
+
+(** what is printed for a field's type is part of what is printed for the object *)
+Lemma obj_ops_nested : forall l k kp ty ro opt d x,
+  In (Ts.TsType.mkField k kp ty ro opt d) l -> In x (Ts.TsType.print_type ty) -> In x (SS.obj_ops l).
+Proof.
+  induction l as [|[k' kp' ty' ro' opt' d'] l IH]; intros k kp ty ro opt d x Hin Hx; [destruct Hin|].
+  cbn [SS.obj_ops]. destruct Hin as [He|Hin].
+  - injection He as -> -> -> -> -> ->.
+    apply in_or_app; right. apply in_or_app; right. apply in_or_app; right. apply in_or_app; right.
+    apply in_or_app; right. apply in_or_app; left. exact Hx.
+  - apply in_or_app; right. apply in_or_app; right. apply in_or_app; right. apply in_or_app; right.
+    apply in_or_app; right. apply in_or_app; right. right. exact (IH _ _ _ _ _ _ _ Hin Hx).
+Qed.
+
+Lemma print_object_nested : forall fields k kp ty ro opt d x,
+  In (Ts.TsType.mkField k kp ty ro opt d) fields -> In x (Ts.TsType.print_type ty) ->
+  In x (Ts.TsType.print_type (Ts.TsType.TObject fields)).
+Proof.
+  intros fields k kp ty ro opt d x Hin Hx. destruct fields as [|f0 fs0]; [destruct Hin|].
+  rewrite SS.print_object_eq. apply in_or_app; right. apply in_or_app; left. eapply obj_ops_nested; eassumption.
+Qed.
+
+(** every field of every object type of the transformed document is a key of that type's entry in
+    [Resolvers<Context>], written with a [write_for] on the field's name *)
+Lemma resolver_field_site : forall o n doc ops d p nm impls dirs fields kw fd,
+  S.print_resolvers o n doc = S.Ok ops ->
+  In (A.TDObject d p nm impls dirs fields kw) (S.typedefs (RP.resolver_doc n doc)) -> In fd fields ->
+  Ts.TsType.is_raw_ident (A.iname (A.fd_name fd)) = true ->
+  In (WO.WF (A.iname (A.fd_name fd)) (A.ipos (A.fd_name fd)) (Some (A.iname (A.fd_name fd)))) ops.
+Proof.
+  intros o n doc ops d p nm impls dirs fields kw fd H Hin Hfd Hraw. unfold S.print_resolvers in H.
+  apply C10.Proofs.bind_ok in H as (rd & Hd & H). injection H as <-.
+  unfold S.resolver_structure in Hd.
+  apply C10.Proofs.bind_ok in Hd as (tm & _ & Hd).
+  apply C10.Proofs.bind_ok in Hd as (aliases & _ & Hd). injection Hd as <-.
+  fold (RP.resolver_doc n doc).
+  unfold S.print_resolver_decls. cbn [S.rd_root].
+  apply in_or_app. right. apply in_or_app. right. apply in_or_app. right. apply in_or_app. left.
+  set (td := A.TDObject d p nm impls dirs fields kw) in *.
+  eapply (print_object_nested _ (S.tname td)).
+  - apply in_flat_map. exists td. split; [exact Hin|]. cbn [S.get_resolver_type td]. left. reflexivity.
+  - eapply SS.print_object_key; [|exact Hraw]. apply in_map_iff. exists fd. split; [reflexivity | exact Hfd].
+Qed.
+
+Lemma resolver_definitions_are_mapped_lemma : forall fmap o n doc ops st,
+  S.print_resolvers o n doc = S.Ok ops ->
+  sw_run fmap (map conv_wop10 ops) = Some st ->
+  (forall td, In td (S.typedefs doc) -> S.is_input_def td = false -> A.pbuiltin (A.ipos (A.typedef_name td)) = false ->
+     mapped_in fmap st (S.tname td) (conv_pos10 (A.ipos (A.typedef_name td))) (S.tname td)) /\
+  (forall d p nm impls dirs fields kw fd,
+     In (A.TDObject d p nm impls dirs fields kw) (S.typedefs (RP.resolver_doc n doc)) -> In fd fields ->
+     Ts.TsType.is_raw_ident (A.iname (A.fd_name fd)) = true -> A.pbuiltin (A.ipos (A.fd_name fd)) = false ->
+     mapped_in fmap st (A.iname (A.fd_name fd)) (conv_pos10 (A.ipos (A.fd_name fd))) (A.iname (A.fd_name fd))).
+Proof.
+  intros fmap o n doc ops st Hp H. split.
+  - intros td Hin Hk Hb.
+    eapply mapped_of_write_for10; [exact H | exact (resolver_alias_site o n doc ops td Hp Hin Hk) | exact Hb].
+  - intros d p nm impls dirs fields kw fd Hin Hfd Hraw Hb.
+    eapply mapped_of_write_for10; [exact H | exact (resolver_field_site o n doc ops d p nm impls dirs fields kw fd Hp Hin Hfd Hraw) | exact Hb].
 Qed.
